@@ -22,6 +22,10 @@
 // having with that many comparisons, long in/select/group by/order by lists, planner-built
 // right-deep chains). The classes wide=..., exprNodes=..., fanout=... count them.
 //
+// Operator census (census_test.go), informational only: whether the statement carries the operators,
+// functions and atoms the TEXT has (select list and having clause) is counted in the evidence
+// (census:* classes) and never asserted -- C17 does not state it.
+//
 // Concurrent sessions: sessions_test.go (every result of concurrently parsing goroutines must be
 // the verdict of the same text parsed alone).
 //
@@ -557,6 +561,10 @@ var dbOptions = []*option.DatabaseOption{
 
 var queryCounters counters
 
+// census mismatch samples already kept in the evidence notes, per label (queryProperty runs on
+// one goroutine)
+var censusSamples = map[string]int{}
+
 func queryProperty(t *rapid.T) {
 	g := newSQLGen(t)
 	g.queryStmt()
@@ -612,6 +620,32 @@ func queryProperty(t *rapid.T) {
 		t.Fatalf("sql.Parse is not deterministic: statements are not deeply equal\nfirst:  %+v\nsecond: %+v\nsql: %s", c1, c2, text)
 	}
 	checkQueryWire(t, "parsed statement", q1)
+	// informational (census_test.go): does the statement carry the operators of the text? Never fails.
+	if g.filterInExpr {
+		classes = append(classes, "shape=filterInsideExpr")
+	}
+	if g.nowParam {
+		classes = append(classes, "shape=nowParam")
+	}
+	if edge {
+		classes = append(classes, "census:skipped-edge")
+	} else {
+		classes = append(classes, censusClasses(g)...)
+		if mm := censusMismatch(g, q1, text); mm != "" {
+			label := "census:mismatch-other"
+			switch {
+			case g.filterInExpr:
+				label = "census:mismatch-filterInsideExpr"
+			case g.nowParam:
+				label = "census:mismatch-nowParam"
+			}
+			classes = append(classes, "census:mismatch", label)
+			if censusSamples[label]++; censusSamples[label] <= 2 {
+				ev.Note(fmt.Sprintf("TestParsedQuerySurvivesWire/%s/sample%d", label, censusSamples[label]), mm)
+			}
+			t.Logf("observation (not asserted): the statement does not carry the operators of the text: %s", mm)
+		}
+	}
 
 	// the root plans before it sends: run the production planner step on the parsed statement
 	planned := rapid.Bool().Draw(t, "plan")
